@@ -48,7 +48,7 @@ ASSUMPTIONS = [
 ]
 
 
-def run_main(argv, env, sys_cfg):
+def run_main(argv, env, sys_cfg, reset_mode="gregorian"):
     """Run main(argv) in-process -> (stdout, stderr, exit code, escaped exc)."""
     from metomi.isodatetime import main as M_main
     out, err = io.StringIO(), io.StringIO()
@@ -74,7 +74,8 @@ def run_main(argv, env, sys_cfg):
                 os.environ.pop(k, None)
             else:
                 os.environ[k] = v
-        M.lib().Calendar.default().set_mode("gregorian")
+        if reset_mode is not None:
+            M.lib().Calendar.default().set_mode(reset_mode)
     return out.getvalue(), err.getvalue(), code, exc
 
 
